@@ -150,7 +150,10 @@ func orderExtra() []extraJob {
 func orderJobs() (srcs []string, inputs [][]fhir.Resource) {
 	r := &RNG{s: 424242}
 	g := &ResGen{r: r, maxDepth: 2, density: 70}
-	types := []string{"TestScript", "CompartmentDefinition", "CapabilityStatement", "OperationDefinition", "SearchParameter", "GraphDefinition", "Patient", "Organization", "Person", "Bundle", "Practitioner", "RelatedPerson", "Encounter", "Appointment", "CareTeam", "Group", "Location", "HealthcareService", "Endpoint", "Observation", "DiagnosticReport", "Composition", "List", "Questionnaire", "QuestionnaireResponse", "ValueSet", "ConceptMap", "CodeSystem", "StructureDefinition", "Claim", "ExplanationOfBenefit", "Contract", "Medication", "MedicationKnowledge", "PlanDefinition", "ActivityDefinition"}
+	types := []string{"TestScript", "CompartmentDefinition", "CapabilityStatement", "OperationDefinition", "SearchParameter", "GraphDefinition", "Patient", "Organization", "Person", "Bundle", "Practitioner", "RelatedPerson", "Encounter", "Appointment", "CareTeam", "Group", "Location", "HealthcareService", "Endpoint", "Observation", "DiagnosticReport", "Composition", "List", "Questionnaire", "QuestionnaireResponse", "ValueSet", "ConceptMap", "CodeSystem", "StructureDefinition", "Claim", "ExplanationOfBenefit", "Contract", "Medication", "MedicationKnowledge", "PlanDefinition", "ActivityDefinition",
+		// resources whose short name is also the short name of a component nested in another type of this list
+		// (Patient.communication, Encounter.location / diagnosis, CareTeam.participant ...)
+		"Communication", "Substance", "Specimen", "Account", "Coverage", "Immunization", "Procedure"}
 	dummy := &Ctx{rng: r, meta: Meta{Dist: map[string]int{}, LawFailCount: map[string]int{}}, seen: map[uint64]struct{}{}}
 	for _, tn := range types {
 		for k := 0; k < 2; k++ {
@@ -158,7 +161,9 @@ func orderJobs() (srcs []string, inputs [][]fhir.Resource) {
 			if res == nil {
 				continue
 			}
-			for _, e := range []string{"descendants().count()", "children().count()", "children().children().count()", "descendants().where($this is BackboneElement).children().count()", "descendants()", "children().children()"} {
+			for _, e := range []string{"descendants().count()", "children().count()", "children().children().count()", "descendants().where($this is BackboneElement).children().count()", "descendants()", "children().children()",
+				"where($this is BackboneElement).count()", "where($this is DomainResource).count()", "descendants().where($this is DomainResource).count()",
+				"descendants().where($this is Element).count()", "children().where($this is BackboneElement or $this is Resource).count()"} {
 				srcs = append(srcs, tn+"."+e)
 				inputs = append(inputs, []fhir.Resource{res})
 			}
